@@ -368,3 +368,38 @@ func genEditSteps(t *rapid.T, wl *CompileWL, n int) []EditStep {
 	}
 	return steps
 }
+
+// addHubClash appends a "hub" shape to the workload and returns the workspace
+// roots to use with it: a base file with an extendable message, two to three
+// files that extend it (their extension numbers drawn from a pool of two, so
+// that clashes between files that are only imported are common), and a hub
+// file that imports the extenders directly. With only the hub in the
+// workspace the extenders are import-only files.
+func addHubClash(t *rapid.T, wl *CompileWL) []string {
+	wl.Files = append(wl.Files, PFile{Name: "xb.proto", Text: "syntax = \"proto2\";\npackage xb;\nmessage B {\n  optional int32 n = 1;\n  extensions 100 to 199;\n}\n"})
+	n := rapid.IntRange(2, 3).Draw(t, "hubExtenders")
+	var hubImports []string
+	hub := "syntax = \"proto2\";\npackage hub;\n"
+	for i := 0; i < n; i++ {
+		name := fmt.Sprintf("xe%d.proto", i)
+		tag := 100 + rapid.IntRange(0, 1).Draw(t, "hubTag")
+		wl.Files = append(wl.Files, PFile{Name: name, Imports: []string{"xb.proto"},
+			Text: fmt.Sprintf("syntax = \"proto2\";\npackage xe%d;\nimport \"xb.proto\";\nmessage E%d {\n  optional int32 n = 1;\n}\nextend xb.B {\n  optional int32 e%d = %d;\n}\n", i, i, i, tag)})
+		hubImports = append(hubImports, name)
+		hub += fmt.Sprintf("import %q;\n", name)
+	}
+	hub += "message Hub {\n"
+	for i := 0; i < n; i++ {
+		hub += fmt.Sprintf("  optional xe%d.E%d f%d = %d;\n", i, i, i, i+1)
+	}
+	hub += "}\n"
+	wl.Files = append(wl.Files, PFile{Name: "hub.proto", Text: hub, Imports: hubImports})
+	wl.Defects = append(wl.Defects, "hub shape: extension numbers of import-only files may clash")
+	roots := []string{"hub.proto"}
+	for _, f := range wl.Files {
+		if f.Name != "hub.proto" && rapid.IntRange(0, 5).Draw(t, "hubAlso") == 0 {
+			roots = append(roots, f.Name)
+		}
+	}
+	return roots
+}
